@@ -167,8 +167,8 @@ CHECKS = {
               'equal a list interpreter that drops exactly the failing calls; off '
               '=> raises with the injected object in the cause chain, exact '
               'prefix, sinks closed.',
-              'num_threads=0; sink closure observed after the exception is '
-              'released'),
+              'sink closure observed after the exception is released; threaded '
+              'part: apply only'),
     'C13': _c('E1-vsched', 'model_checking', _E1,
               'piter_multiplex / piter_fn / piter / pmap / MultiplexIterator on a '
               'virtual thread pool that honours max_workers (late task start), '
@@ -271,7 +271,10 @@ _ADD = {
            'pipeline configurations, cut 0-4, free switches at blocking points; '
            'thorough <= 1 preemption): the known finding "prefetched elements '
            'are skipped after restore" comes from there.',
-    'C12': ' Data sources: sliceable and index-only sequences, from_sequences '
+    'C12': ' num_threads 1-2 under the deterministic scheduler: a failing apply at '
+           'every failure set |F|<=2 over 4 records x 3 source kinds x skipping '
+           'on/off (1 thread <=1 preemption, 2 threads free switches; thorough +1).'
+           ' Data sources: sliceable and index-only sequences, from_sequences '
            'members of every length, shards incl. one-element and empty ones.',
     'C14': ' Shutdown is also requested in the middle of a failing / succeeding '
            'call at each position of the history.',
